@@ -642,6 +642,7 @@ func (i *interpreter) RunJob(fn *ssa.Function, name string, params map[string]st
 	i.lim = lim
 	i.params = params
 	i.violated = map[string]int{}
+	i.unknowns, i.slow = 0, 0
 	i.work = [][]decision{nil}
 	t0 := time.Now()
 	q0, st0 := i.sol.Queries, i.sol.Time
@@ -827,9 +828,34 @@ func sortedKeys(m map[string]bool) []string {
 
 var _ = os.Stderr
 
+const maxUnknownsPerJob = 6
+const maxSlowPerJob = 12
+
 // solCheck is sol.Check with the watchdog: a dead solver ends the path as inconclusive.
 func (i *interpreter) solCheck(assume ...*smt.Term) smt.Result {
+	t0 := time.Now()
 	r := i.sol.Check(assume...)
+	if d := time.Since(t0); r != smt.Unknown && !i.sol.Dead && i.sol.TimeoutMs > 0 && d > time.Duration(i.sol.TimeoutMs)*time.Millisecond/3 {
+		// decided, but only just: a job made of such queries is abandoned as well
+		i.slow++
+		if i.slow > maxSlowPerJob {
+			i.res.Truncated = true
+			i.res.Inconclusive = append(i.res.Inconclusive, fmt.Sprintf("job abandoned after %d queries that each took more than a third of the solver time-out (last at %s); %d paths pending", i.slow, i.curPosString(), len(i.work)))
+			i.work = nil
+			panic(pathEnd{"slow-budget"})
+		}
+	}
+	if r == smt.Unknown && !i.sol.Dead {
+		// every unknown costs a full solver time-out: a job that keeps producing them is
+		// abandoned (reported inconclusive) instead of spending the whole run on it
+		i.unknowns++
+		if i.unknowns > maxUnknownsPerJob {
+			i.res.Truncated = true
+			i.res.Inconclusive = append(i.res.Inconclusive, fmt.Sprintf("job abandoned after %d solver time-outs (last at %s); %d paths pending", i.unknowns, i.curPosString(), len(i.work)))
+			i.work = nil
+			panic(pathEnd{"unknown-budget"})
+		}
+	}
 	if i.sol.Dead {
 		i.res.Inconclusive = append(i.res.Inconclusive, "solver watchdog fired (query exceeded the time cap) at "+i.curPosString())
 		panic(pathEnd{"solver-dead"})
